@@ -1,4 +1,4 @@
-import ChfVerif.Lemmas.ChargingStep
+import ChfVerif.Lemmas.ChargingOutage
 /-
   C06 — grants never exceed what the subscriber's money buys; no overdraft.
 
@@ -29,8 +29,10 @@ theorem C06_step (guard : SplitGuard) (s : State) (Ls : Ledgers) (op : Op)
   cases hc : chargedUsages s op with
   | some x =>
     obtain ⟨supi', trigs, groups, us⟩ := x
-    simp only [hc] at hok hcomp ⊢
+    simp only [hc, Bool.and_eq_true] at hok hcomp ⊢
+    obtain ⟨⟨hau, hru⟩, hok⟩ := hok
     obtain ⟨ha, hg, hgo, hgs⟩ := charged_step (guard := guard) hc
+    simp only [seenAccts, seenTariffs, acctsAfter, hau, hru, if_true] at ha hg hcomp ⊢
     have hB' := hB supi'
     rw [hgs] at hB'
     obtain ⟨b1, n1⟩ := creditControl_safe s.tariffs supi' trigs us s.accts groups (ledgerOf Ls supi') hok hcomp hB' hN
@@ -140,5 +142,57 @@ theorem C06_debit_grants_nothing {e : Env} {supi : Bytes} {u : Usage} {st : RgSt
     (ok : UsageOK e supi u st b s) :
     (debitBranch e supi u st (totalUsed u.cs)).mui = some { rg := u.rg, granted := 0, fui := false } :=
   (debit_char ok).2.2.1
+
+/-! ### while a server is unreachable -/
+
+/-- No overdraft across outages: while the account-balance server or the rating server (or both) cannot be
+    reached, no operation makes an account balance negative — whatever the consumer reports (the only account
+    request that still succeeds is a reservation, which the server limits to the balance; refunds and final
+    debits need both servers).  An external credit must not take money away. -/
+theorem C06_outage_never_negative_step (guard : SplitGuard) (s : State) (op : Op)
+    (hdown : ¬ (s.abmfUp = true ∧ s.rfUp = true)) (hok : opOKx s op = true)
+    (hcr : ∀ a b c, op = .credit a b c → 0 ≤ c) (hN : NonNeg s.accts) :
+    NonNeg (step guard s op).1.accts := by
+  unfold opOKx at hok
+  cases hc : chargedUsages s op with
+  | some x =>
+    obtain ⟨supi', trigs, groups, us⟩ := x
+    simp only [hc] at hok
+    obtain ⟨ha, _, _, _⟩ := charged_step (guard := guard) hc
+    simp only [seenAccts, seenTariffs, acctsAfter] at ha
+    rw [ha]
+    exact creditControl_nonneg_x s.abmfUp s.rfUp s.tariffs supi' trigs hdown us s.accts groups hok hN
+  | none =>
+    obtain ⟨_, hbal⟩ := uncharged_step (guard := guard) hc
+    intro supi rg v hv
+    by_cases hcr' : ∃ amt, op = .credit supi rg amt
+    · obtain ⟨amt, hop⟩ := hcr'
+      have hamt := hcr _ _ _ hop
+      subst hop
+      simp only [step, creditAcct] at hv
+      cases hf : Abmf.find s.accts supi rg with
+      | none => simp only [hf] at hv; exact hN _ _ _ hv
+      | some q =>
+        simp only [hf] at hv
+        cases hp : q.parse with
+        | none => simp only [hp] at hv; exact hN _ _ _ hv
+        | some w =>
+          simp only [hp] at hv
+          rw [balOf_put_same _ hf] at hv
+          cases hv
+          have : 0 ≤ w := hN supi rg w (by unfold balOf; rw [hf]; exact hp)
+          omega
+    · rw [hbal _ _ (fun a b c hop hab => hcr' ⟨c, by rw [hop, hab.1, hab.2]⟩)] at hv
+      exact hN _ _ _ hv
+
+/-- what the seeded "roll back" would break, stated for the model: with the account-balance server unreachable a
+    reserve-mode report is still taken off the reservation in full (so a later grant cannot be backed by money
+    that is already consumed) -/
+theorem C06_outage_usage_still_consumed (tariffs : List Rating.Tariff) (supi : Bytes) (u : Usage) (st : RgState)
+    (used : Nat) (hfit : used * getUnitCost { accts := [], tariffs := tariffs } supi u.rg < 4294967296)
+    (hr : -2305843009213693952 ≤ st.reserved ∧ st.reserved ≤ 2305843009213693952) :
+    (reserveBranch { accts := [], tariffs := tariffs } supi u st used).st.reserved =
+      st.reserved - ((used * getUnitCost { accts := [], tariffs := tariffs } supi u.rg : Nat) : Int) :=
+  (reserve_abmf_down tariffs supi u st used hfit hr).2
 
 end Chf.Props.C06
